@@ -24,6 +24,8 @@ from .. import nlops as NL
 from .c04 import validate_events
 
 NANV = [[0, 0], [0, 0]]
+# derivative is by design not the Frechet derivative of the discrete map / numerical differentiation operators
+EXEMPT_FAMILIES = ('LinDeform', 'Numerical', 'RayTransform', 'RayBackProjection')
 
 
 def check_program(ctx, line, sp, events, profile, stage):
@@ -31,7 +33,7 @@ def check_program(ctx, line, sp, events, profile, stage):
     js = json.dumps(e)
     sig0 = {'part': 'programs', 'profile': profile, 'top': U.top2(e), 'size': 'big' if sp.big else 'small',
             'has_mat_leaf': 'yes' if '"t": "mat"' in js else 'no', 'maps': '%s->%s' % (line['dom'], line['ran']),
-            'functional_on_field': 'yes' if ('"t": "smul"' in js and ('"t": "l2sq"' in js or '"t": "l1"' in js)) else 'no'}
+            'functional_on_field': 'yes' if ('"t": "smul"' in js and ('"t": "l2sq"' in js or '"t": "l1"' in js or '"t": "linfn"' in js)) else 'no'}
     detail0 = {'stage': stage, 'line': line, 'profile': profile, 'big': sp.big}
     if profile == 'C' and '"t": "l2sq"' in js:
         # |x|^2 is not complex-differentiable; ODL documents the "C = R^2" convention for such maps.
@@ -103,6 +105,41 @@ def builtin_events(ctx):
                       lin=bool(D.is_linear), domok=bool(D.domain == op.domain), ranok=bool(D.range == op.range))
         except NotImplementedError:
             ctx.extra.setdefault('recipes_without_derivative_exempt', []).append('%s %s' % (family, opts))
+            continue
+        except Exception as ex:
+            ev['err'] = type(ex).__name__
+            ev['msg'] = str(ex)[:160]
+        events.append(ev)
+        meta.append((sig, opts, family))
+        ctx.count([family, opts], True)
+    # ---- the rest of the operator catalogue: every nonlinear operator that offers a derivative
+    from .. import opcatalog as C
+    from .. import linops as L
+    rng = np.random.default_rng(ctx.seed + 17)
+    seen_nl = set((f, json.dumps(o, sort_keys=True)) for f, o, _ in NL.recipes(ctx.tier))
+    for group, family, opts, fn in C.all_recipes(ctx.tier):
+        if any(t in family for t in EXEMPT_FAMILIES) or (family, json.dumps(opts, sort_keys=True)) in seen_nl:
+            continue
+        if opts.get('derived', 'self') not in ('self', 'gradient', 'convex_conj', 'convex_conj.gradient') or 'via' in opts:
+            continue
+        try:
+            op = fn()
+            if op.is_linear:
+                continue
+            x = C.random_point(op.domain, rng, positive=True)
+            d = C.random_point(op.domain, rng, positive=False)
+        except Exception:
+            continue
+        sig = dict(opts)
+        sig.update({'part': 'builtin', 'class': family})
+        ev = {'cls': family, 'err': '', 'q1': 0, 'q2': 0, 'q3': 0, 'lin': True, 'domok': True, 'ranok': True}
+        try:
+            errs, scale, D = NL.central_errors(op, x, d)
+            if not all(np.isfinite(errs)):
+                continue            # outside the domain of the operator (indicator values, log of negatives, ...)
+            ev.update(q1=NL.quant(errs[0], scale), q2=NL.quant(errs[1], scale), q3=NL.quant(errs[2], scale),
+                      lin=bool(D.is_linear), domok=bool(D.domain == op.domain), ranok=bool(D.range == op.range))
+        except NotImplementedError:
             continue
         except Exception as ex:
             ev['err'] = type(ex).__name__
